@@ -36,6 +36,13 @@ func runC07(c *Ctx) {
 	c.ruleLifecycleHelpers("U8-instances-run-the-published-builder")
 	c.only = nil
 	c.Min("U8-instances-run-the-published-builder", 2)
+	// a selection is resolved in the container the execution runs, once: the pool's selected methods hand the
+	// names on as given (the same-name dispatch of C16-Q5) and the engine method looks them up in the
+	// container it took. Names filtered beforehand against the pool's own builder belong to whatever version
+	// was installed at that moment; an update between the filter and the run gives a mix of two versions
+	c.armPoolArgs("U9-selection-resolved-where-it-runs", func(m string) bool {
+		return strings.HasPrefix(m, "ExecuteSelected") && !strings.HasSuffix(m, "WithSpecifiedEM")
+	}, 10)
 	c.Min("U6-no-lock-while-rules-run", 24)
 	c.ruleEngineKeepsNoRules("U7-engine-keeps-no-rules-between-calls")
 	c.Min("U7-engine-keeps-no-rules-between-calls", 1)
